@@ -27,7 +27,7 @@ theorem visitNode_false {c : Cfg} {n : Node} {body : St → St} {st : St} (h : (
   intro h; simp only at h; subst h; rfl
 
 theorem visitNode_true {c : Cfg} {n : Node} {body : St → St} {st : St} (h : (enter c n st).2 = true) :
-    visitNode c n body st = (enter c n st).1 := by
+    visitNode c n body st = leaveSkipped c n st (enter c n st).1 := by
   unfold visitNode
   revert h
   generalize enter c n st = p
@@ -52,14 +52,19 @@ structure CTX (c : Cfg) (X : Type) where
   leave_ctx : ∀ n st, ctx (leave c n st) = up n (ctx st)
   enterI : ∀ n st, n.isDoc = false → Inv st → Inv (enter c n st).1
   leaveI : ∀ n st, n.isDoc = false → Inv st → Inv (leave c n st)
+  /-- a skipping node: the count is taken after the members that entered were left again (fix 391ad62) -/
   skipE : ∀ n st, n.isDoc = false → Inv st → bad n (down n (ctx st)) = true →
-    (enter c n st).2 = true ∧ E st < E (enter c n st).1
+    (enter c n st).2 = true ∧ E st < E (leaveSkipped c n st (enter c n st).1)
+  skipI : ∀ n st, n.isDoc = false → Inv st → (bad n (down n (ctx st)) = true ∨ qskip n (down n (ctx st)) = true) →
+    Inv (leaveSkipped c n st (enter c n st).1)
+  skip_ctx : ∀ n st, n.isDoc = false → Inv st → (bad n (down n (ctx st)) = true ∨ qskip n (down n (ctx st)) = true) →
+    ctx (leaveSkipped c n st (enter c n st).1) = up n (down n (ctx st))
   noskip : ∀ n st, n.isDoc = false → Inv st → bad n (down n (ctx st)) = false → qskip n (down n (ctx st)) = false →
     (enter c n st).2 = false
   enterE : ∀ n st, n.isDoc = false → Inv st → bad n (down n (ctx st)) = false → qskip n (down n (ctx st)) = false →
     E (enter c n st).1 = E st + F n (down n (ctx st))
   qskipE : ∀ n st, n.isDoc = false → Inv st → qskip n (down n (ctx st)) = true →
-    (enter c n st).2 = true ∧ E (enter c n st).1 = E st
+    (enter c n st).2 = true ∧ E (leaveSkipped c n st (enter c n st).1) = E st
   qskip_fine : ∀ n x, qskip n x = true → bad n x = false ∧ F n x = 0 ∧ G n x = 0
   qskip_ctx : ∀ n x, qskip n (down n x) = true → down n x = x
   qskip_only : ∀ n x, qskip n x = true → ∃ fs, n = .value (.obj fs)
@@ -85,10 +90,10 @@ theorem visitNode_MI (K : CTX c X) (n : Node) (body : St → St) (st : St) (hn :
       rw [K.leaveE n _ hn i2]; omega
     · obtain ⟨h1, h2⟩ := K.skipE n st hn hi hbad
       rw [visitNode_true h1]
-      exact ⟨K.enterI n st hn hi, Nat.le_of_lt h2⟩
+      exact ⟨K.skipI n st hn hi (Or.inl hbad), Nat.le_of_lt h2⟩
   · obtain ⟨h1, h2⟩ := K.qskipE n st hn hi hq
     rw [visitNode_true h1]
-    exact ⟨K.enterI n st hn hi, Nat.le_of_eq h2.symm⟩
+    exact ⟨K.skipI n st hn hi (Or.inr hq), Nat.le_of_eq h2.symm⟩
 
 theorem algM (K : CTX c X) : WalkAlg c (fun _ st st' => MI K st st') where
   nil st := fun hi => ⟨hi, Nat.le_refl _⟩
@@ -188,7 +193,7 @@ theorem PX.node (K : CTX c X) (n : Node) (body : St → St) (lb : List (Node × 
         · exact hqs hq p hp
       · intro _; exact h2
     · intro _
-      rw [K.enter_ctx, K.qskip_ctx n _ hq]
+      rw [K.skip_ctx n st hn hi (Or.inr hq), K.restore n _ hJ]
 
 /-- nodes other than object literals never skip quietly -/
 theorem noq (K : CTX c X) {n : Node} {x : X} {lb : List (Node × X)} (hne : ∀ fs, n ≠ .value (.obj fs)) :
